@@ -504,7 +504,8 @@ end
 /-! ## The fragment the theorems of `QP.Props.C07` cover -/
 
 mutual
-/-- constant, table, function (affine in `t`), sequence, repetition, iteration and mapping templates that satisfy what
+/-- constant, table, function (affine in `t`), sequence, repetition, iteration, mapping and time reversal (integral
+only: it does not implement the end values) templates that satisfy what
 the constructors of the real classes enforce: amplitude keys are distinct (a `dict`), all parts of a sequence
 define the same channels, a channel mapping is total on the body's channels and injective on the kept ones -/
 def supported : PT → Bool
@@ -518,6 +519,7 @@ def supported : PT → Bool
       supported body && body.definedChannels.all (fun c => (cm'.lookup c).isSome) &&
       !hasDup (body.definedChannels.filterMap (fun c => match cm'.lookup c with | some (some o) => some o | _ => none)) &&
       !hasDup body.definedChannels
+  | .timeReversal _ body => supported body
   | _ => false
 def supportedAll : List PT → Bool
   | [] => true
